@@ -64,6 +64,26 @@ func (x *Exec) callModule(st *State, pk *Pkg, fn *ssa.Function, free []Val, args
 	if fc == nil {
 		x.fail("callee %s has no contract (add one, or mark it `inline`)", InstName(fn))
 	}
+	// a (bounded) lemma may ask for a callee to be verified through its body, with its loops unrolled
+	if top := x.topFc; top != nil && !fc.Inline {
+		for _, k := range strings.Split(top.Opts["inline"], ",") {
+			if k == key {
+				cfc := *fc
+				cfc.Loops = map[int]*LoopSpec{}
+				for lk, lv := range fc.Loops {
+					cfc.Loops[lk] = lv
+				}
+				for ok, ov := range top.Opts {
+					var li, n int
+					if _, err := fmt.Sscanf(ok+"="+ov, "unroll."+key+".%d=%d", &li, &n); err == nil {
+						cfc.Loops[li] = &LoopSpec{Unroll: n, HasUnroll: true}
+					}
+				}
+				x.inlined[InstName(fn)+" (in bounded lemma)"] = true
+				return x.inlineCall(st, pk, fn, &cfc, free, args)
+			}
+		}
+	}
 	if fc.Inline {
 		x.inlined[InstName(fn)] = true
 		return x.inlineCall(st, pk, fn, fc, free, args)
@@ -184,6 +204,17 @@ func (x *Exec) inlineCall(st *State, pk *Pkg, fn *ssa.Function, fc *FuncContract
 	}
 	st.Guard = o.Or(guards...)
 	st.H, st.Alloc = H, A
+	if fc != nil && fc.Pure {
+		pv := x.pureResults(fn, fc, args, entry)
+		for i := range merged {
+			if pv[i] != nil {
+				func() {
+					defer func() { recover() }()
+					x.assume(o.Implies(st.Guard, x.valEq(st, merged[i], pv[i])))
+				}()
+			}
+		}
+	}
 	for k, v := range cells {
 		st.Cells[k] = v
 	}
@@ -216,6 +247,10 @@ func (x *Exec) zeroResult(fn *ssa.Function) Val {
 
 // applyContract: modular call — check the precondition, havoc what the callee may assign, assume the postcondition.
 func (x *Exec) applyContract(st *State, pk *Pkg, fn *ssa.Function, fc *FuncContract, args []Val) (result Val) {
+	if fc.Pure {
+		// the results are uninterpreted applications, not fresh symbols: the hypotheses are kept by the ordinary rule
+		return x.applyContract1(st, pk, fn, fc, args)
+	}
 	x.defining(func() { result = x.applyContract1(st, pk, fn, fc, args) })
 	return result
 }
@@ -252,7 +287,16 @@ func (x *Exec) applyContract1(st *State, pk *Pkg, fn *ssa.Function, fc *FuncCont
 	res := fn.Signature.Results()
 	names := resultNames(fn)
 	vals := make([]Val, res.Len())
+	var pureVals []Val
+	if fc.Pure {
+		// the results of a pure function *are* its uninterpreted applications to the arguments' contents
+		pureVals = x.pureResults(fn, fc, args, pre)
+	}
 	for i := 0; i < res.Len(); i++ {
+		if pureVals != nil && pureVals[i] != nil {
+			vals[i] = pureVals[i]
+			continue
+		}
 		vals[i] = x.freshVal(fmt.Sprintf("c%d.%s.r%d", seq, sanitize(label), i), res.At(i).Type())
 		if sv, ok := vals[i].(SliceVal); ok {
 			x.assume(o.Lt(sv.Reg, st.Alloc))
@@ -271,12 +315,7 @@ func (x *Exec) applyContract1(st *State, pk *Pkg, fn *ssa.Function, fc *FuncCont
 		}
 		x.assume(o.Implies(st.Guard, t))
 	}
-	if fc.Pure && len(vals) == 1 {
-		// a pure function: its result is an (uninterpreted) function of its arguments' contents
-		if rt, ok := vals[0].(*Term); ok {
-			x.assume(o.Implies(st.Guard, o.Eq(rt, x.pureApp(fn, fc, args, st, rt.Sort))))
-		}
-	}
+
 	switch len(vals) {
 	case 0:
 		return nil
@@ -464,7 +503,7 @@ func (x *Exec) writeArr(old, base *Term, src StrVal, n *Term) *Term {
 		return cur
 	}
 	// bounded symbolic length: conditional stores
-	if b := o.Bounds(n); !o.M.BV && b.hi != nil && b.hi.IsInt64() && b.hi.Int64() <= 24 {
+	if b := o.Bounds(n); !o.M.BV && b.hi != nil && b.hi.IsInt64() && b.hi.Int64() <= 32 {
 		cur := old
 		for i := int64(0); i < b.hi.Int64(); i++ {
 			// (array-level conditional: measured to be much easier for the solvers than a value-level one)
@@ -976,7 +1015,39 @@ type pureAppRec struct {
 	res  *Term
 }
 
+// pureResults: the results of a pure function as uninterpreted applications (scalars and strings; nil for others).
+func (x *Exec) pureResults(fn *ssa.Function, fc *FuncContract, args []Val, st *State) []Val {
+	o := x.o
+	res := fn.Signature.Results()
+	out := make([]Val, res.Len())
+	for i := 0; i < res.Len(); i++ {
+		t := res.At(i).Type()
+		suffix := fmt.Sprintf(".r%d", i)
+		if res.Len() == 1 {
+			suffix = ""
+		}
+		switch {
+		case isScalarType(t):
+			out[i] = x.pureAppN(fn, fc, args, st, o.ElemSort(t), suffix)
+			if ity, ok := intTyOf(t); ok && !o.M.BV {
+				// typing fact of the result
+				r := out[i].(*Term)
+				x.assume(o.And(o.Le(o.IntBig(ity.Min()), r), o.Le(r, o.IntBig(ity.Max()))))
+			}
+		case isStringType(t):
+			l := x.pureAppN(fn, fc, args, st, o.IdxSort(), suffix+".len")
+			x.assume(o.IdxLe(o.Idx(0), l))
+			out[i] = StrVal{Arr: x.pureAppN(fn, fc, args, st, o.ByteArr(), suffix+".arr"), Off: x.pureAppN(fn, fc, args, st, o.IdxSort(), suffix+".off"), Len: l}
+		}
+	}
+	return out
+}
+
 func (x *Exec) pureApp(fn *ssa.Function, fc *FuncContract, args []Val, st *State, res *Sort) *Term {
+	return x.pureAppN(fn, fc, args, st, res, "")
+}
+
+func (x *Exec) pureAppN(fn *ssa.Function, fc *FuncContract, args []Val, st *State, res *Sort, suffix string) *Term {
 	o := x.o
 	ignore := map[string]bool{}
 	if fc != nil {
@@ -1016,7 +1087,7 @@ func (x *Exec) pureApp(fn *ssa.Function, fc *FuncContract, args []Val, st *State
 	for _, a := range args {
 		flat(a)
 	}
-	name := "pure." + InstName(fn)
+	name := "pure." + InstName(fn) + suffix
 	r := o.UF(name, res, ts...)
 	rec.res = r
 	if x.pureApps == nil {
@@ -1157,7 +1228,7 @@ func (w *World) checkPure(fn *ssa.Function, ignores string) string {
 				}
 				name := callee.String()
 				okPrefix := false
-				for _, p := range []string{"strings.", "(*regexp.Regexp).Match", "strconv.", "math/bits.", "unicode/utf8.", "(*regexp.Regexp).Find"} {
+				for _, p := range []string{"strings.", "(*strings.Builder).", "(*regexp.Regexp).Match", "strconv.", "math/bits.", "unicode/utf8.", "(*regexp.Regexp).Find"} {
 					if strings.HasPrefix(name, p) {
 						okPrefix = true
 					}
